@@ -8,6 +8,7 @@ import (
 	"qmc/core"
 	"qmc/enum"
 	"qmc/ref"
+	"qmc/rt"
 )
 
 /*
@@ -776,6 +777,92 @@ func sweepC19Totals(c *core.Ctx) {
 				if r, _ := m.Result(); r != float64(correct)/float64(total) {
 					return core.Fail("one metric, batches so far %v...: after batch %d (size %d) Result %v, expected %d/%d = %v", []int{n/2 + 3, n/2 + 3, 7, 100, 1, n / 4, 6}[:bi+1], bi, size, r, correct, total, float64(correct)/float64(total))
 				}
+			}
+			return core.Pass()
+		})
+	}
+}
+
+// producedC19: predictions / targets that are results of operations (every
+// producer of the composition cases, comparison results, tracked tensors), and
+// the same tensor object as prediction AND target.
+func producedC19(c *core.Ctx) {
+	for _, n := range []int{1, 4, 6} {
+		for _, pr := range producersOf([]int{n}) {
+			for role := 0; role < 3; role++ {
+				n, pr, role := n, pr, role
+				c.Case(fmt.Sprintf("produced/%s/n%d/role%d", pr.name, n, role), true, func() core.Verdict {
+					vals, _ := pr.prog.Forward()
+					y := vals[len(vals)-1]
+					ts, failed, err := rt.RunProgram(pr.prog)
+					if err != nil {
+						return core.Fail("producer %s node %d: %v", pr.name, failed, err)
+					}
+					ry := ts[len(ts)-1]
+					other := y.Clone()
+					want := 0
+					for i := range other.V {
+						if i%2 == 1 {
+							other.V[i] += 1
+						} else {
+							want++
+						}
+					}
+					m := metrics.NewAccuracy()
+					var aerr error
+					switch role {
+					case 0:
+						aerr = m.Accumulate(ry, rt.Make(other, false))
+					case 1:
+						aerr = m.Accumulate(rt.Make(other, true), ry)
+					default: // the same object in both roles: everything matches
+						aerr = m.Accumulate(ry, ry)
+						want = n
+					}
+					if aerr != nil {
+						return core.Fail("Accumulate with a tensor produced by %s (role %d): %v", pr.name, role, aerr)
+					}
+					if r, _ := m.Result(); r != float64(want)/float64(n) {
+						return core.Fail("Accumulate with a tensor produced by %s (values %v, role %d: 0 prediction, 1 target, 2 both): Result %v, expected %d/%d", pr.name, y.V, role, r, want, n)
+					}
+					if ok, msg := core.ExactEq(rt.Read(ry), y); !ok {
+						return core.Fail("Accumulate changed the tensor produced by %s: %s", pr.name, msg)
+					}
+					return core.Pass()
+				})
+			}
+		}
+		// comparison results as labels
+		n := n
+		c.Case(fmt.Sprintf("produced/comparison/n%d", n), true, func() core.Verdict {
+			a := enum.Generic([]int{n}, 41, 0.5, 3, true)
+			b := a.Clone()
+			want := 0
+			for i := range b.V {
+				if i%3 == 0 {
+					b.V[i] += 1
+				}
+			}
+			ra, rb := rt.Make(a, false), rt.Make(b, false)
+			gt, err1 := rb.Gt(ra) // 1 where b > a
+			ne, err2 := ra.Ne(rb) // the same labels
+			eq, err3 := ra.Eq(rb) // the complement
+			if err1 != nil || err2 != nil || err3 != nil {
+				return core.Fail("comparisons: %v %v %v", err1, err2, err3)
+			}
+			m := metrics.NewAccuracy()
+			if err := m.Accumulate(gt, ne); err != nil {
+				return core.Fail("Accumulate(Gt result, Ne result): %v", err)
+			}
+			if r, _ := m.Result(); r != 1 {
+				return core.Fail("Accumulate(Gt result, Ne result) with identical labels: Result %v, expected 1", r)
+			}
+			if err := m.Accumulate(gt, eq); err != nil {
+				return core.Fail("Accumulate(Gt result, Eq result): %v", err)
+			}
+			_ = want
+			if r, _ := m.Result(); r != 0.5 {
+				return core.Fail("after a second batch of complementary labels: Result %v, expected 0.5", r)
 			}
 			return core.Pass()
 		})
